@@ -64,7 +64,11 @@ def closed_form_ops(rng):
             ('diagonal-extreme-magnitudes', dtiny, True),
             ('homothety-extreme-magnitude', htiny, True),
             ('blockdiag-extreme-scalar', BlockDiagonalOperator([htiny, d]), True),
-            ('blockdiag-extreme', BlockDiagonalOperator([dtiny, [d]]), True)]
+            ('blockdiag-extreme', BlockDiagonalOperator([dtiny, [d]]), True),
+            # FLAT containers of DIFFERENT blocks; dict keys inserted in an order that is not the sorted (flatten) order
+            ('blockdiag-flat-dict-unsorted', BlockDiagonalOperator({'tod': d, 'ground': h, 'a': dtiny}), True),
+            ('blockdiag-flat-dict-two', BlockDiagonalOperator({'z': h, 'b': d}), True),
+            ('blockdiag-flat-tuple', BlockDiagonalOperator((d, h, dtiny)), True)]
 
 
 def one_case(ctx: Ctx, stream: str, i: int) -> None:
